@@ -37,40 +37,7 @@ def _calls(fn: ast.AST, recv: str, meth: str) -> list[ast.Call]:
 
 
 def pairing(check: Check, repo: Repo) -> None:
-    def ob(q: str, good: str, bad: str, ok: bool) -> None:
-        check.oblige("PAIRING", f"{STACK}::Stack.{q}", good if ok else bad, ok, sample=not ok, finding=Finding("PAIRING", f"{STACK}::Stack.{q}", bad, f"Stack.{q}: {bad}", {}))
-        check.count("pairing_facts")
-
-    snap = _method(repo, STACK, "Stack", "snapshot")
-    ap = _calls(snap, "self.lengths", "append")
-    muts = [n for n in ast.walk(snap) if isinstance(n, ast.Call) and isinstance(n.func, ast.Attribute) and n.func.attr in ("append", "extend", "pop", "clear", "insert")]
-    ok = len(ap) == 1 and len(muts) == 1 and ast.unparse(ap[0].args[0]) == "(len(self.items), len(self.items))"
-    ob("snapshot", "pushes exactly one entry (len(items), len(items)) and nothing else", "snapshot does not push exactly one (len(items), len(items)) entry", ok)
-    for q in ("restore", "drop_snapshot"):
-        fn = _method(repo, STACK, "Stack", q)
-        pops = _calls(fn, "self.lengths", "pop")
-        ok = len(pops) == 1 and not any(isinstance(p, (ast.For, ast.While)) and any(x is pops[0] for x in ast.walk(p)) for p in ast.walk(fn))
-        ob(q, "pops exactly one snapshot entry", f"{q} does not pop exactly one entry of lengths", ok)
-        # the pop is not executed when there is no snapshot
-        src = ast.unparse(fn)
-        ok = "if not self.lengths:" in src or "if self.lengths:" in src
-        ob(q, "guards the pop with a test for an existing snapshot", f"{q} pops lengths without testing that a snapshot exists", ok)
-    r = ast.unparse(_method(repo, STACK, "Stack", "restore"))
-    ok = "if not self.lengths:\n        self.items.clear()" in r
-    ob("restore", "without a snapshot, empties the stack", "restore without a snapshot does not empty the stack", ok)
-    for q in ("pop", "clear"):
-        fn = _method(repo, STACK, "Stack", q)
-        src = ast.unparse(fn)
-        ok = "if self.lengths:" in src and "self.lengths[-1] = " in src and ("self.popped.append(" in src or "self.popped.extend(" in src)
-        ob(q, "updates lengths[-1] and popped when a snapshot exists", f"{q} removes items without recording them for the latest snapshot", ok)
-    for q in ("push",):
-        fn = _method(repo, STACK, "Stack", q)
-        ok = ast.unparse(fn.body[-1]) == "self.items.append(item)" and "lengths" not in ast.unparse(fn) and "popped" not in ast.unparse(fn)
-        ob(q, "only appends to items", "push touches the snapshot bookkeeping", ok)
-    for q in ("peek", "empty", "__len__", "__iter__", "__getitem__"):
-        fn = _method(repo, STACK, "Stack", q)
-        w = [n for n in ast.walk(fn) if isinstance(n, (ast.Assign, ast.AugAssign, ast.Delete)) or (isinstance(n, ast.Call) and isinstance(n.func, ast.Attribute) and n.func.attr in ("append", "extend", "pop", "clear", "insert", "remove"))]
-        ob(q, "is read-only", f"{q} mutates the stack", not w)
+    """The text-shape pairing facts on Stack were removed: REP-INVARIANT decides every Stack method in full."""
 
 
 def conservation(check: Check, repo: Repo) -> None:
@@ -109,27 +76,65 @@ def rep_invariant(check: Check, repo: Repo, tier: str) -> None:
 
 
 def snapshotting_int(check: Check, repo: Repo) -> None:
-    def ob(q: str, good: str, bad: str, ok: bool) -> None:
-        check.oblige("PAIRING", f"{CINT}::SnapshottingInt.{q}", good if ok else bad, ok, finding=Finding("PAIRING", f"{CINT}::SnapshottingInt.{q}", bad, f"SnapshottingInt.{q}: {bad}", {}))
-        check.count("pairing_facts")
+    """SnapshottingInt against a value plus a list of saved values, on all states with value in 0..2 and
+    at most two saved values (the operations compare and copy, never compute with the saved values)."""
+    import itertools
 
-    s = ast.unparse(_method(repo, CINT, "SnapshottingInt", "snapshot"))
-    ob("snapshot", "appends the current value", "snapshot does not append _value", "self._checkpoints.append(self._value)" in s and s.count("_checkpoints") == 1)
-    r = ast.unparse(_method(repo, CINT, "SnapshottingInt", "restore"))
-    ob("restore", "pops the last checkpoint into the value (0 without checkpoint)", "restore does not pop the last checkpoint into _value", "self._value = self._checkpoints.pop()" in r and r.count(".pop()") == 1 and "self._value = 0" in r)
-    d = _method(repo, CINT, "SnapshottingInt", "drop")
-    ds = ast.unparse(d)
-    ob("drop", "pops the last checkpoint and leaves the value alone", "drop changes the value or does not pop exactly one checkpoint", ds.count("self._checkpoints.pop()") == 1 and "self._value" not in ds and "if self._checkpoints" in ds)
-    c = repo.cls(CINT, "SnapshottingInt")
-    for fn in c.body:
-        if isinstance(fn, ast.FunctionDef) and fn.name not in ("snapshot", "restore", "drop", "__init__"):
-            ob(fn.name, "does not touch the checkpoint list", f"{fn.name} touches _checkpoints", "_checkpoints" not in ast.unparse(fn))
-    z = ast.unparse(_method(repo, CINT, "SnapshottingInt", "zero"))
-    ob("zero", "sets the value to 0", "zero does not set the value to 0", "self._value = 0" in z)
-    a = ast.unparse(_method(repo, CINT, "SnapshottingInt", "__add__"))
-    ob("__add__", "adds in place and returns self", "__add__ is not in-place addition", "self._value += int(other)" in a and "return self" in a)
-    g = ast.unparse(_method(repo, CINT, "SnapshottingInt", "__gt__"))
-    ob("__gt__", "compares the value", "__gt__ does not compare the value", "self._value > int(value)" in g)
+    from ..objmodel import ClassModel
+    from ..ordabs import ModelRaise
+
+    cm = ClassModel(repo, CINT, CINT)
+    if "SnapshottingInt" not in cm.classes:
+        raise AnalysisError(f"anchor vanished: {CINT}::SnapshottingInt")
+    ops = {
+        "snapshot": lambda v, sv, a: (v, sv + [v], None),
+        "restore": lambda v, sv, a: ((sv[-1], sv[:-1], "self") if sv else (0, [], "self")),
+        "drop": lambda v, sv, a: (v, sv[:-1], None),
+        "zero": lambda v, sv, a: (0, sv, None),
+        "__add__": lambda v, sv, a: (v + a, sv, "self"),
+        "__sub__": lambda v, sv, a: (v - a, sv, "self"),
+        "__gt__": lambda v, sv, a: (v, sv, v > a),
+        "__ge__": lambda v, sv, a: (v, sv, v >= a),
+        "__lt__": lambda v, sv, a: (v, sv, v < a),
+        "__le__": lambda v, sv, a: (v, sv, v <= a),
+        "__eq__": lambda v, sv, a: (v, sv, v == a),
+        "__int__": lambda v, sv, a: (v, sv, v),
+    }
+    states = [(v, list(sv)) for v in range(3) for k in range(3) for sv in itertools.product(range(3), repeat=k)]
+    for q, spec in ops.items():
+        bad = None
+        n = 0
+        for v, sv in states:
+            for a in ((0, 1) if q.startswith("__") and q != "__int__" else (None,)):
+                n += 1
+                obj = cm.new("SnapshottingInt", v)
+                for x in sv:
+                    obj.__dict__["_value"] = x
+                    cm.call(obj, "snapshot")
+                obj.__dict__["_value"] = v
+                if q != "snapshot" and obj.__dict__.get("_checkpoints") != sv:
+                    bad = bad or f"value={v}: after snapshots of {sv} the saved list is {obj.__dict__.get('_checkpoints')}"
+                    continue
+                want_v, want_sv, want_ret = spec(v, sv, a)
+                try:
+                    ret = cm.call(obj, q, *([a] if a is not None else []))
+                except ModelRaise as err:
+                    bad = bad or f"value={v} saved={sv}: raises {err}"
+                    continue
+                got = (obj.__dict__.get("_value"), obj.__dict__.get("_checkpoints"))
+                if got != (want_v, want_sv):
+                    bad = bad or f"value={v} saved={sv}{'' if a is None else f' arg={a}'}: leaves value={got[0]} saved={got[1]}, a plain value with a list of copies would have value={want_v} saved={want_sv}"
+                elif want_ret == "self":
+                    if ret is not obj:
+                        bad = bad or f"value={v} saved={sv}: does not return the counter itself (`state.atomic_depth += 1` would rebind the field)"
+                elif ret != want_ret:
+                    bad = bad or f"value={v} saved={sv}{'' if a is None else f' arg={a}'}: returns {ret!r} instead of {want_ret!r}"
+        construct = f"{CINT}::SnapshottingInt.{q}"
+        sig = "does not behave like a value with a list of saved copies"
+        check.oblige("PAIRING", construct, f"agrees with a value plus a list of saved copies on all {n} model states" if bad is None else sig, bad is None,
+                     finding=Finding("PAIRING", construct, sig, f"SnapshottingInt.{q} {sig}: {bad}", {"witness": bad or ""}))
+        check.count("pairing_facts")
+        check.count("snapshotting_int_states", n)
 
 
 def who_may_write(check: Check, repo: Repo) -> None:
@@ -189,7 +194,7 @@ def run(tier: str) -> Check:
     snapshotting_int(check, repo)
     who_may_write(check, repo)
     check.floor("coverage_components", 12)
-    check.floor("pairing_facts", 20)
+    check.floor("pairing_facts", 12)
     check.floor("conservation_paths", 10)
     check.floor("rep_invariant_states", 2000)
     check.floor("private_field_accesses", 30)
